@@ -98,7 +98,12 @@ def main():
     for d in dirs:
         rp = os.path.join(d, "result.json")
         old = json.load(open(rp)) if os.path.exists(rp) else {}
-        if mode == "verify":
+        if mode == "benign":
+            old["checks"] = check(d)
+            bad = {p: r for p, r in old["checks"].items() if isinstance(r, dict) and r.get("rc") != 0}
+            print(f"{os.path.basename(d)}: " + ("all 19 checks silent" if not bad else
+                  "ALARMS " + str({p: (r['violations'] or r['error'])[:2] for p, r in bad.items()})[:700]))
+        elif mode == "verify":
             old["verify"] = verify(d)
             v = old["verify"]
             print(f"{os.path.basename(d)}: confirmed={v.get('confirmed')} applies={v.get('applies')} "
@@ -112,7 +117,7 @@ def main():
                   + (f" analysis-errors {errs}" if errs else ""))
         json.dump(old, open(rp, "w"), indent=1)
     # restore evidence written against patched trees
-    if mode == "check":
+    if mode in ("check", "benign"):
         for pid in ALL:
             sh([PY, os.path.join(HERE, "check"), pid, "--tier", "quick"], cwd=HERE)
 
